@@ -1151,6 +1151,23 @@ class FunctionPlugin(PrimitivePlugin):
 
             # Explicit outputs from inner jaxpr
             child_out_vals = [fscope.ctx.get_value_for_var(v) for v in jpr_f.outvars]
+            # A function output has to be produced by a node of the body.  When the
+            # callee returns one of its arguments unchanged the output would alias
+            # a function input (a body without nodes); the checker accepts that but
+            # ONNX Runtime refuses to load the model.  Route it through Identity.
+            child_input_ids = {id(v) for v in in_vals_child}
+            for out_idx, out_val in enumerate(child_out_vals):
+                if id(out_val) not in child_input_ids:
+                    continue
+                alias = fscope.ctx.builder.Identity(
+                    out_val,
+                    _outputs=[fscope.ctx.fresh_name("fn_passthrough")],
+                )
+                if getattr(out_val, "type", None) is not None:
+                    alias.type = out_val.type
+                if getattr(out_val, "shape", None) is not None:
+                    alias.shape = out_val.shape
+                child_out_vals[out_idx] = alias
             fdef = fscope.end(outputs=child_out_vals)
             # Create a native onnx_ir.Function and attach to the PARENT context
             ir_fn = fscope.to_ir_function()
